@@ -41,6 +41,10 @@ def plan(tier, seed):
     for c in base:
         if len(c["rules"]) <= (3 if tier == "thorough" else 2) or c["name"].startswith("sharp"):
             cases.append(dict(c, mode="float"))
+    bi, si, ti = gram.grammar_cases(2 if tier != "thorough" else 3, terms=("a", "b", "c"), with_sharp=False)
+    cases += [dict(c, mode="free", ints=True) for c in bi]  # integer terminals {0,1,2} (0 is falsy)
+    nstates += si
+    ntrans += ti
     return {
         "cases": cases,
         "states": nstates,
@@ -77,7 +81,7 @@ def run_free(case):
     V = case_terms(case)
     table = enum_derivs(rules, "S", V, Poly.D)
     g = gram.build(rules, Poly, gram.poly_weights(len(rules)), V=V)
-    inp0 = {"rules": case["rules"]}
+    inp0 = {"rules": case["rules"]} if not case.get("ints") else {"rules": case["rules"], "tokens": "a,b,c -> 0,1,2"}
     fails = []
     evals = 0
     nonzero = 0
@@ -88,7 +92,7 @@ def run_free(case):
     else:
         pg_rules = rules_of(pg)
     plen = p["plen"] if len(V) <= 2 else 2
-    for pre in strings_upto(sorted(V), plen):
+    for pre in strings_upto(sorted(V, key=repr), plen):
         want = table_prefix(table, pre)
         if pre and want != Poly.zero:
             nonzero += 1
@@ -107,7 +111,7 @@ def run_free(case):
         if not (isinstance(have, Poly) and have == want):
             fails.append(_fail("treesum(derivatives(p)[-1]) == prefix weight", dict(inp0, prefix=list(pre)), have, want))
     # derivative(a)(y) == w(a.y), also iterated (SKIP branch on repeated tokens)
-    for pre in strings_upto(sorted(V), 2):
+    for pre in strings_upto(sorted(V, key=repr), 2):
         if not pre:
             continue
         Dg = _call(lambda: g.derivatives(pre)[-1])
@@ -115,7 +119,7 @@ def run_free(case):
             fails.append(_fail("derivative:construct", dict(inp0, prefix=list(pre)), Dg, "grammar"))
             continue
         drules = rules_of(Dg)
-        for y in strings_upto(sorted(V), p["ylen"]):
+        for y in strings_upto(sorted(V, key=repr), p["ylen"]):
             want = table.get(pre + y, Poly.zero)
             have = _call(ref_weight, drules, Dg.S, Dg.V, Poly, y)
             evals += 1
